@@ -600,3 +600,178 @@ pub fn makeready_strategy() -> impl proptest::strategy::Strategy<Value = MakeRea
     use proptest::prelude::*;
     (1u8..3, proptest::collection::vec((prop_oneof![3 => Just(0u8), 1 => 0u8..30], prop_oneof![2 => Just(0u8), 2 => 1u8..60, 1 => Just(255u8)]), 1..7), 0u8..2).prop_map(|(cap, clients, proto)| MakeReadyCase { cap, clients, proto })
 }
+
+// ------------------------------------------------------------------------------------------------
+// connections that are already faulty when the server accepts them: a listener written against the
+// public `Accept` trait hands out the server halves of `DuplexStream::new` pairs on whose client
+// halves the peer has already spoken (plaintext to a TLS port, garbage, a partial ClientHello or
+// preface) or which the peer has already left. `Acceptor::new(..)` with and without `with_tls`,
+// `Server::builder().with_acceptor(..)`, HTTP/1 and auto.
+
+#[derive(Clone, Debug, Serialize, Deserialize, PartialEq)]
+pub struct QueueCase {
+    pub tls: bool,
+    pub proto: u8,
+    /// clients in connect order: 0 well-behaved; 1 already gone; 2 plaintext request already written;
+    /// 3 garbage already written; 4 partial ClientHello already written, then silent; 5 partial
+    /// HTTP/2 preface already written; 6 bytes already written and already gone
+    pub clients: Vec<u8>,
+    /// built `with_graceful_shutdown` on a signal that never resolves
+    pub graceful: bool,
+}
+
+pub struct QueueAcceptor(pub tokio::sync::mpsc::UnboundedReceiver<hyperdriver::stream::duplex::DuplexStream>);
+
+impl hyperdriver::server::conn::Accept for QueueAcceptor {
+    type Conn = hyperdriver::stream::duplex::DuplexStream;
+    type Error = std::io::Error;
+    fn poll_accept(mut self: std::pin::Pin<&mut Self>, cx: &mut std::task::Context<'_>) -> std::task::Poll<Result<Self::Conn, Self::Error>> {
+        match self.0.poll_recv(cx) {
+            std::task::Poll::Ready(Some(s)) => std::task::Poll::Ready(Ok(s)),
+            std::task::Poll::Ready(None) => std::task::Poll::Ready(Err(std::io::ErrorKind::ConnectionAborted.into())),
+            std::task::Poll::Pending => std::task::Poll::Pending,
+        }
+    }
+}
+
+pub struct QueueAcceptEngine;
+
+impl Engine for QueueAcceptEngine {
+    type Case = QueueCase;
+    fn name(&self) -> &'static str {
+        "queueaccept"
+    }
+    fn run_case(&self, c: &QueueCase) -> CaseReport {
+        use tokio::io::{AsyncReadExt, AsyncWriteExt};
+        let mut rep = CaseReport::default();
+        let _ = crate::panichook::take_all();
+        crate::engines::tlswire::install_provider();
+        let rt = tokio::runtime::Builder::new_current_thread().enable_time().start_paused(true).build().unwrap();
+        let c2 = c.clone();
+        let res = std::panic::catch_unwind(std::panic::AssertUnwindSafe(|| {
+            rt.block_on(async move {
+                let (tx, rx) = tokio::sync::mpsc::unbounded_channel();
+                let acceptor = hyperdriver::server::conn::Acceptor::new(QueueAcceptor(rx));
+                let acceptor = if c2.tls { acceptor.with_tls(Arc::new(crate::engines::tlswire::server_config(0, 0, Default::default()))) } else { acceptor };
+                let svc = tower::service_fn(|_req: http::Request<hyperdriver::Body>| async move { Ok::<_, std::io::Error>(http::Response::new(hyperdriver::Body::from("queue-ok"))) });
+                let base = hyperdriver::Server::builder::<hyperdriver::Body>().with_acceptor(acceptor).with_shared_service(svc);
+                let graceful = c2.graceful;
+                let server = match (c2.proto % 2, graceful) {
+                    (0, false) => tokio::spawn(async move { base.with_http1().with_tokio().await.map_err(|e| e.to_string()) }),
+                    (0, true) => tokio::spawn(async move { base.with_http1().with_tokio().with_graceful_shutdown(std::future::pending::<()>()).await.map_err(|e| e.to_string()) }),
+                    (_, false) => tokio::spawn(async move { base.with_auto_http().with_tokio().await.map_err(|e| e.to_string()) }),
+                    (_, true) => tokio::spawn(async move { base.with_auto_http().with_tokio().with_graceful_shutdown(std::future::pending::<()>()).await.map_err(|e| e.to_string()) }),
+                };
+                let tls = c2.tls;
+                let good = |client: hyperdriver::stream::duplex::DuplexStream| async move {
+                    let req = b"GET /x HTTP/1.1\r\nhost: example.com\r\nconnection: close\r\n\r\n";
+                    let fut = async {
+                        let mut buf = vec![];
+                        if tls {
+                            let connector = tokio_rustls::TlsConnector::from(Arc::new(crate::engines::tlswire::client_config(0)));
+                            let name = rustls::pki_types::ServerName::try_from("example.com").unwrap();
+                            let mut t = connector.connect(name, client).await.map_err(|e| format!("handshake: {e}"))?;
+                            t.write_all(req).await.map_err(|e| format!("write: {e}"))?;
+                            // the answer is complete when the server closes (connection: close); an abrupt end counts too
+                            let _ = t.read_to_end(&mut buf).await;
+                        } else {
+                            let mut s = client;
+                            s.write_all(req).await.map_err(|e| format!("write: {e}"))?;
+                            let _ = s.read_to_end(&mut buf).await;
+                        }
+                        if buf.starts_with(b"HTTP/1.1 200") && buf.ends_with(b"queue-ok") {
+                            Ok(())
+                        } else {
+                            Err(format!("answer {:?}", String::from_utf8_lossy(&buf[..buf.len().min(48)])))
+                        }
+                    };
+                    match tokio::time::timeout(Duration::from_secs(5), fut).await {
+                        Ok(r) => r,
+                        Err(_) => Err("no answer within 5 virtual seconds".to_string()),
+                    }
+                };
+                let mut problems = vec![];
+                let mut keep = vec![];
+                for (i, k) in c2.clients.iter().enumerate() {
+                    let (mut client, server_half) = hyperdriver::stream::duplex::DuplexStream::new(8192);
+                    match k % 7 {
+                        0 => {
+                            let _ = tx.send(server_half);
+                            if let Err(e) = good(client).await {
+                                problems.push(format!("well-behaved client #{i}: {e}"));
+                            }
+                            continue;
+                        }
+                        1 => drop(client),
+                        2 => {
+                            let _ = client.write_all(b"GET / HTTP/1.1\r\nhost: example.com\r\n\r\n").await;
+                            keep.push(client);
+                        }
+                        3 => {
+                            let _ = client.write_all(&[0x80, 0x03, 0xff, 0x00, 0x7f, 0x16, 0x03]).await;
+                            keep.push(client);
+                        }
+                        4 => {
+                            let _ = client.write_all(&[0x16, 0x03, 0x01, 0x00, 0xe9, 0x01, 0x00, 0x00]).await;
+                            keep.push(client);
+                        }
+                        5 => {
+                            let _ = client.write_all(&b"PRI * HTTP/2.0\r\n\r\nSM\r\n\r\n"[..(3 + i % 20)]).await;
+                            keep.push(client);
+                        }
+                        _ => {
+                            let _ = client.write_all(b"GET /gone HTTP/1.1\r\nhost: x\r\n\r\n").await;
+                            drop(client);
+                        }
+                    }
+                    // the connection reaches the listener only now: the fault is already there
+                    let _ = tx.send(server_half);
+                    tokio::task::yield_now().await;
+                }
+                tokio::time::sleep(Duration::from_millis(20)).await;
+                let (probe, server_half) = hyperdriver::stream::duplex::DuplexStream::new(8192);
+                let _ = tx.send(server_half);
+                if let Err(e) = good(probe).await {
+                    problems.push(format!("probe after the faults: {e}"));
+                }
+                let end = if server.is_finished() { Some(format!("{:?}", server.await)) } else { server.abort(); None };
+                drop(keep);
+                (problems, end)
+            })
+        }));
+        drop(rt);
+        let desc = format!("{c:?}");
+        for (loc, msg) in crate::panichook::take_all() {
+            if crate::panichook::in_library(&loc) {
+                rep.violate("C09/panic-in-server-task", format!("{desc}: panic at {loc}: {msg}"));
+            }
+        }
+        match res {
+            Err(_) => {
+                if rep.violations.is_empty() {
+                    rep.internal_error = Some(format!("harness panic at {}: {}", crate::panichook::last_location(), crate::panichook::last_message()));
+                }
+            }
+            Ok((problems, end)) => {
+                if let Some(e) = end {
+                    rep.violate("C09/server-stopped-after-connection-fault", format!("{desc}: the serving future ended: {e}"));
+                }
+                for p in problems {
+                    rep.violate("C09/client-not-served-after-pre-accept-fault", format!("{desc}: {p}"));
+                }
+            }
+        }
+        rep.class("faulty-before-accept");
+        if c.tls {
+            rep.class("faulty-before-accept-tls");
+        }
+        rep.nontrivial = c.clients.iter().any(|k| k % 7 != 0);
+        rep.total_ops = c.clients.len() as u64;
+        rep
+    }
+}
+
+pub fn queue_strategy() -> impl proptest::strategy::Strategy<Value = QueueCase> {
+    use proptest::prelude::*;
+    (any::<bool>(), 0u8..2, proptest::collection::vec(prop_oneof![2 => Just(0u8), 5 => 1u8..7], 1..7), any::<bool>()).prop_map(|(tls, proto, clients, graceful)| QueueCase { tls, proto, clients, graceful })
+}
